@@ -241,4 +241,24 @@ theorem nextPos_le {α : Type} (p : Prog α) (input stop : List Byte)
   · simp only; omega
   · simp only; rw [h1.1, h1.2.2.1]; omega
 
+/-! ### an invalid byte never reaches `newLit` -/
+
+theorem consumeN_err (n : Nat) : ∀ (a : LSt), (LSt.consumeN n a).err = a.err := by
+  induction n with
+  | zero => intro a; rfl
+  | succ n ih => intro a; simp [LSt.consumeN, ih]
+
+theorem consumeN_r (n : Nat) : ∀ (a : LSt), (LSt.consumeN n a).r = a.r := by
+  induction n with
+  | zero => intro a; rfl
+  | succ n ih => intro a; simp [LSt.consumeN, ih]
+theorem litPush_r (a : LSt) (bs : List Byte) : (a.litPush bs).r = a.r := by
+  unfold LSt.litPush; split <;> rfl
+
+theorem runeDecode_invalid (a : LSt) (ha : a.err = none) (hd : decodeRune a.rest = (runeError, 1)) :
+    (LSt.runeDecode a).r = runeEOF ∧ (LSt.runeDecode a).err ≠ none := by
+  unfold LSt.runeDecode
+  simp only [hd]
+  simp [LSt.errPass, consumeN_err, consumeN_r, litPush_r, ha]
+
 end ShVerif.C07
